@@ -56,7 +56,8 @@ class UnicodeForPython3(str):
         return self.value == other or self.value.decode("utf-8") == other
 
     def __hash__(self) -> int:
-        return id(self.value)
+        # Equal objects need equal hashes, or sets and dicts keep duplicates.
+        return hash(self.value)
 
     def __repr__(self) -> str:
         r"""
